@@ -10,6 +10,7 @@ from typing import Any, Callable, Iterable, Iterator
 from ..astutil import (ERROR_CLASSES, Locals, anon, call_name, calls_in, cfg_of, constructs_error, local_names, names_in, norm, receivers, region, resolved_text,
                        stmt_of, where)
 from ..cfg import CFG, ENTRY, EXIT, walk_own
+from ..domain import RAW, RAW_NONSTR
 from ..core import Report
 
 LEVEL = ("structural clauses on the region of merge_properties / _process_properties / _process_models, decided on paths (small symbolic "
@@ -1182,7 +1183,8 @@ def _enum_sibling(rep: Report, ctx: Any, mf: MergeFn, kind: str) -> None:
                     continue  # nothing an argument of this class can have (the comparison written for the other kind of enum)
                 n_evaluated += 1
                 # elements must carry the member's value: (name, value) pairs or the values themselves, not the generated names alone
-                if not (el is not None and ((el.tup is not None and len(el.tup) == 2) or bool(set(el.labels) - {"WORD"}))):
+                # (generated names are made of words, constants and numbers - `VALUE_<i>` - and never carry the document's own text)
+                if not (el is not None and ((el.tup is not None and len(el.tup) == 2) or bool(set(el.labels) & {RAW, RAW_NONSTR}))):
                     names_only.append(f"{norm(side)[:60]} in {key[:80]}")
             if not n_evaluated:
                 names_only.append(f"nothing is known about what {key[:80]} compares")
